@@ -129,15 +129,21 @@ def r2(ctx):
         ctx.check(not cb, cs.caller, "task submitted without completion callbacks", line=cs.node.lineno,
                   role="submit:no-callback", expected="no callback= / error_callback= (they run in completion order)",
                   found=", ".join(cb))
-    # producer: task k is built from cluster k and stored at position k
+    # the task-building helper, by role: whatever function (other than the phase itself) submits the asynchronous task
     prod = ana.func("graphical_lasso.optimize_markov_random_fields")
+    submitters = {cs.caller.qualname for cs in submits} - {prod.qualname}
+    inline_submit = prod.qualname in {cs.caller.qualname for cs in submits}
+
+    def is_submit(name: str) -> bool:
+        return name in submitters or "_setup_optimization_task" in name or (inline_submit and name in (".apply_async", ".submit"))
+    # producer: task k is built from cluster k and stored at position k
     b = ana.builder(prod, no_inline=ana.known)
     found_store = False
     for s in b.stores():
         if s.idx is None or len(s.idx) != 1:
             continue
         v = s.value
-        if not any(isinstance(x, App) and "_setup_optimization_task" in x.fn for x in tm.subterms(v)):
+        if not any(isinstance(x, App) and is_submit(x.fn) for x in tm.subterms(v)):
             continue
         found_store = True
         k = s.idx[0]
@@ -156,7 +162,7 @@ def r2(ctx):
         fl = Flow(ana, prod)
         ok = False
         for n in Resolver.walk_own(prod.node):
-            if isinstance(n, ast.ListComp) and any("_setup_optimization_task" in unparse(c, 200) for c in ast.walk(n.elt) if isinstance(c, ast.Call)):
+            if isinstance(n, ast.ListComp) and any(is_submit(callee_fq(cs_)) for cs_ in ana.res.calls(prod) if any(cs_.node is c for c in ast.walk(n.elt))):
                 t = b.term(n)
                 if isinstance(t, Comp):
                     cl = [x for x in tm.subterms(t.elt) if isinstance(x, Idx) and isinstance(x.base, Attr) and x.base.name == "clusters"]
@@ -214,7 +220,7 @@ def r2(ctx):
         fl = Flow(ana, prod)
         arg = ba.get("optimization_tasks")
         dep = fl.closure(arg) if arg is not None else None
-        ok = dep is not None and any("_setup_optimization_task" in n for n in dep.call_names)
+        ok = dep is not None and any(is_submit(n) for n in dep.call_names)
         ctx.check(ok, prod, "the gathered list is the list of submitted tasks", line=cs.node.lineno, role="consumer:same-list",
                   expected="tasks produced by _setup_optimization_task", found=unparse(arg) if arg is not None else "missing")
 
